@@ -72,7 +72,7 @@ def plan(tier, seed):
 
 
 def mandatory(tier):
-    return ["functional", "functional/flag_sweep", "functional/mask_sweep", "functional/special_values", "accessors/constructors", "accessors/Grid", "accessors/Cube", "accessors/Image", "accessors/ImageBatch", "accessors/FlowFields", "transforms", "deepcopy", "pytest"]
+    return ["functional", "functional/flag_sweep", "functional/mask_sweep", "functional/special_values", "functional/tensor_options", "accessors/constructors", "accessors/Grid", "accessors/Cube", "accessors/Image", "accessors/ImageBatch", "accessors/FlowFields", "transforms", "deepcopy", "pytest"]
 
 
 def run_item(ctx, item):
@@ -122,13 +122,25 @@ def functional(ctx, D, part):
         # special-valued first tensor: no-op arithmetic (scale 1, shift 0, clamp that changes nothing) is where a
         # function is tempted to keep working on the caller's tensor
         variants += [(0, specs[0], ("special", kind_)) for kind_ in ("unit_range", "constant", "zeros")]
+        # numeric options (sigma=, spacing=) given as caller-owned per-axis tensors, alone and together with dims=
+        variants += [(0, specs[0], ("tensor_option", o)) for o in tensor_options(fn)]
         for si, spec, flag in variants:
             try:
                 args, kwargs = spec(E)
             except Exception as e:  # noqa: BLE001  (spec does not apply to this D)
                 ctx.count("spec_not_applicable")
                 continue
-            if flag is not None and flag[0] == "special":
+            if flag is not None and flag[0] == "tensor_option":
+                import torch
+
+                oname, with_dims = flag[1]
+                if oname in kwargs:
+                    continue
+                kwargs = dict(kwargs, **{oname: torch.tensor([0.8, 1.1, 0.9][:D], dtype=torch.float32)})
+                if with_dims:
+                    kwargs["dims"] = [0]
+                ctx.bucket("functional/tensor_options")
+            elif flag is not None and flag[0] == "special":
                 import torch
 
                 j = next((k_ for k_, a in enumerate(args) if isinstance(a, torch.Tensor) and type(a) is torch.Tensor and a.is_floating_point() and a.ndim >= 3), None)
@@ -188,6 +200,23 @@ def bool_flags(fn):
     for n, prm in sig.parameters.items():
         if isinstance(prm.default, bool) and n not in ("inplace", "in_place"):
             out.append((n, not prm.default))
+    return out
+
+
+def tensor_options(fn):
+    r"""(option name, also pass dims=) for numeric options that accept one value per axis."""
+    import inspect
+
+    try:
+        prm = inspect.signature(fn).parameters
+    except (TypeError, ValueError):
+        return []
+    out = []
+    for n in ("sigma", "spacing"):
+        if n in prm and prm[n].kind in (prm[n].KEYWORD_ONLY, prm[n].POSITIONAL_OR_KEYWORD):
+            out.append((n, False))
+            if "dims" in prm:
+                out.append((n, True))
     return out
 
 
